@@ -28,7 +28,8 @@ Inductive cop :=
 | OSync (now : Z) (tgt : string)
 | OConnect (now : Z) (tgt : string)
 | OConnectError (now : Z) (tgt : string) (msg : string)
-| OUpdateMeta (now : Z).
+| OUpdateMeta (now : Z)
+| ONop.                                            (* harness-only step (a gated subscriber is held / released): the cache is not called *)
 
 Inductive rcls := ROk | RStale | RFuture | ROther | RMulti (l : list rcls) | RPanic.
 
@@ -203,6 +204,7 @@ Definition mstep (c : cache) (o : cop) : cache * rcls * mfeed :=
   | OConnectError now tgt msg =>
       let '(c', gs, r) := cache_connect_error c now tgt msg in (c', quiet r, MGroups gs)
   | OUpdateMeta now => let '(c', l, p) := cache_update_metadata c now in (c', opt_panic p, MBag l)
+  | ONop => (c, ROk, MBag [])
   end.
 
 Definition mdump_all (c : cache) : list dump_entry :=
